@@ -10,7 +10,7 @@ from .. import sym
 from ..evalfn import SELF, property_backing
 from ..source import AnalysisError
 from ..sym import canon
-from .common import (over_all_children, own_event, CORE, G, GX, plain, truth_equiv, working_for, increments_by, loop_conditions, store_increment, Roles, cur, dominates, final_value, fld, guard_subset, has_lit, hist_fill, hist_store, is_entry, lits, loops_prefix,
+from .common import (child_receiver, over_all_children, own_event, CORE, G, GX, plain, truth_equiv, working_for, increments_by, loop_conditions, store_increment, Roles, cur, dominates, final_value, fld, guard_subset, has_lit, hist_fill, hist_store, is_entry, lits, loops_prefix,
                      mentions_field, mentions_param, postdominates, series_name, short)
 
 SEC_CLASSES = ["SecurityBase", "Security", "FixedIncomeSecurity", "CouponPayingSecurity", "HedgeSecurity", "CouponPayingHedgeSecurity"]
@@ -363,27 +363,37 @@ def coupon_accrual(chk, pid):
                     ok = cpn is not None and equal(leaf, ("*", q, cpn)) and is_inow(cpn[2])
                     chk.ob("C17.R2", ok, fi.module, host, "coupon:formula", "coupon accrued = position x coupon at the current row", where=fi.where,
                            expected="position * coupons[inow]", found=short(leaf), sample={"coupon": short(leaf)})
-            # holding cost
+            # holding cost: one scenario per side of the position and per schedule present / absent
             hfin = final_value(st, SELF, R.HOLDING_COST)
-            for g, leaf in sym.cases(hfin):
-                gg = lits(tuple(st.guard) + tuple(g))
-                pos_lt = sym.lit_holds(gg, ("cmp", "<", q, sym.ZERO), True) if False else None
-                cl = _row_read(leaf, "_cost_long")
-                cs = _row_read(leaf, "_cost_short")
-                long_side = sym.lit_holds(gg, canon(("cmp", ">", q, sym.ZERO)), True)
-                short_side = sym.lit_holds(gg, canon(("cmp", "<", q, sym.ZERO)), True)
-                if cl is not None:
-                    ok = long_side and equal(leaf, ("*", q, cl)) and is_inow(cl[2])
-                    exp = "position * cost_long[inow] under position > 0"
-                elif cs is not None:
-                    ok = short_side and equal(leaf, ("neg", ("*", q, cs))) and is_inow(cs[2])
-                    exp = "-position * cost_short[inow] under position < 0"
-                else:
-                    ok = canon(leaf) == canon(sym.ZERO)
-                    exp = "0 when flat or no cost data"
-                chk.ob("C17.R2", ok, fi.module, host, "holding-cost:%s" % ("long" if cl is not None else "short" if cs is not None else "none"),
-                       "holding cost is charged on the absolute position with the long/short schedule", where=fi.where, expected=exp, found=short(leaf),
-                       sample={"holding_cost": short(leaf), "guard": sym.fmt_guard(g)})
+            gt, lt, zq = canon(("cmp", ">", q, sym.ZERO)), canon(("cmp", "<", q, sym.ZERO)), ("zero", sym._abs_norm(sym.to_rat(q)))
+            no_long, no_short = canon(("isnone", fld(SELF, "_cost_long"))), canon(("isnone", fld(SELF, "_cost_short")))
+            absq = ("call", "abs", (q,), ())
+            for side, slits in (("long", ((gt, True), (lt, False), (zq, False))), ("short", ((gt, False), (lt, True), (zq, False))), ("flat", ((gt, False), (lt, False), (zq, True)))):
+                for nl in (True, False):
+                    for ns in (True, False):
+                        scen = slits + ((no_long, nl), (no_short, ns))
+                        g0 = sym.sat(tuple(lits(st.guard)) + scen)
+                        if sym.inconsistent(g0):
+                            continue
+                        for g, leaf, raws in sym.split_cases(sym.restrict(hfin, g0), raw=True):
+                            gg = GX(st, tuple(g) + scen, raws)
+                            if sym.inconsistent(gg):
+                                continue
+                            leaf = sym.restrict(leaf, gg)
+                            cl = _row_read(leaf, "_cost_long")
+                            cs = _row_read(leaf, "_cost_short")
+                            if side == "long" and not nl:
+                                ok = cl is not None and cs is None and (equal(leaf, ("*", q, cl)) or equal(leaf, ("*", absq, cl))) and is_inow(cl[2])
+                                exp, key = "position * cost_long[inow] under position > 0", "long"
+                            elif side == "short" and not ns:
+                                ok = cs is not None and cl is None and (equal(leaf, ("neg", ("*", q, cs))) or equal(leaf, ("*", absq, cs))) and is_inow(cs[2])
+                                exp, key = "-position * cost_short[inow] under position < 0", "short"
+                            else:
+                                ok = equal(leaf, sym.ZERO)
+                                exp, key = "0 when flat or no cost data", "none"
+                            chk.ob("C17.R2", ok, fi.module, host, "holding-cost:%s" % key,
+                                   "holding cost is charged on the absolute position with the long/short schedule", where=fi.where, expected=exp, found=short(leaf),
+                                   sample={"holding_cost": short(leaf), "guard": sym.fmt_guard(scen)})
             # parked amount
             capfin = final_value(st, SELF, R.CAPITAL)
             ok = equal(capfin, ("-", cfin, hfin))
@@ -816,6 +826,25 @@ def _reset_rules(chk, pid, S, fi, host, R):
         # covers every date change: the guard is exactly `now != 0 and date != now` (the first update has nothing to reset)
         for w in good:
             extra = [l for l in lits(plain(w.guard)) if l not in ((date_changed, False), (now_zero, False)) and l != (canon(("zero", sym._abs_norm(sym.to_rat(fld(SELF, "now"))))), False)]
+            if extra:
+                # decided on the truth table of the two clock atoms: the guard must be `date != now and now != 0`, however it is spelled
+                nz = canon(("zero", sym._abs_norm(sym.to_rat(fld(SELF, "now")))))
+                same = True
+                for b_eq in (True, False):
+                    for b_z in (True, False):
+                        g_ = sym.sat(((date_changed, b_eq), (nz, b_z), (now_zero, b_z)))
+                        if sym.inconsistent(g_):
+                            continue
+                        val = True
+                        for a_, p_ in lits(plain(w.guard)):
+                            if sym.lit_holds(g_, a_, p_):
+                                continue
+                            val = False if sym.lit_holds(g_, a_, not p_) else None
+                            break
+                        if val is None or val != ((not b_eq) and (not b_z)):
+                            same = False
+                if same:
+                    extra = []
             chk.ob("C03.R2", not extra, CORE, host, "reset-on-every-date-change:%s" % field, "%s is handled on every date change, not only on some" % field, where=w.where,
                    expected="no further condition", found=sym.fmt_guard(extra))
     # the clock moves after the test
@@ -1025,6 +1054,8 @@ def outlay_rules(chk, pid):
 
 
 def transact_rules(chk, pid):
+    public_signature(chk, "SecurityBase", "transact")
+    public_signature(chk, "SecurityBase", "allocate")
     R = Roles(chk.prog)
     fi = chk.prog.func(CORE, "SecurityBase", "transact")
     S = chk.summary(CORE, "SecurityBase", "transact", host="SecurityBase", no_inline=("update",))
@@ -1165,9 +1196,49 @@ def _outlay_acc(chk, R):
     raise AnalysisError("SecurityBase.update no longer flushes a pending outlay into the outlays row")
 
 
+# The documented positional interface of the mutators: callers (users and algos) pass the flags by position as well as by keyword, so the order and
+# the defaults of these parameters are behaviour. New optional parameters may be appended.
+PUBLIC_SIGNATURES = {
+    ("StrategyBase", "adjust"): [("amount", None), ("update", "True"), ("flow", "True"), ("fee", "0.0")],
+    ("StrategyBase", "allocate"): [("amount", None), ("child", "None"), ("update", "True")],
+    ("StrategyBase", "transact"): [("q", None), ("child", "None"), ("update", "True")],
+    ("StrategyBase", "rebalance"): [("weight", None), ("child", None), ("base", "np.nan"), ("update", "True")],
+    ("StrategyBase", "close"): [("child", None), ("update", "True")],
+    ("SecurityBase", "allocate"): [("amount", None), ("update", "True")],
+    ("SecurityBase", "transact"): [("q", None), ("update", "True"), ("update_self", "True"), ("price", "None")],
+}
+
+
+def public_signature(chk, cls, name):
+    fi = chk.prog.func(CORE, cls, name)
+    want = PUBLIC_SIGNATURES[(cls, name)]
+    a = fi.node.args
+    pos = [x.arg for x in (a.posonlyargs + a.args)][1:]
+    defaults = [None] * (len(pos) - len(a.defaults)) + [ast.unparse(d) for d in a.defaults][-len(pos):] if pos else []
+    got = list(zip(pos, defaults))
+
+    def same(d1, d2):
+        if d1 is None or d2 is None:
+            return d1 is d2
+        try:
+            return float(eval(d1, {"np": __import__("math"), "True": True, "False": False, "None": None})) == float(eval(d2, {"np": __import__("math"), "True": True, "False": False, "None": None}))
+        except Exception:
+            return d1.replace("numpy", "np").replace("float('nan')", "np.nan") == d2
+    ok = len(got) >= len(want) and all(g[0] == w[0] and (same(g[1], w[1]) or (g[1] is not None and w[1] is not None and g[1] == w[1])) for g, w in zip(got, want)) and \
+        all(d is not None for _, d in got[len(want):])
+    if not ok and len(got) >= len(want):
+        # NaN != NaN: compare the spelling for the NaN default
+        ok = all(g[0] == w[0] and ((g[1] is None and w[1] is None) or (g[1] is not None and w[1] is not None and (g[1] == w[1] or same(g[1], w[1]) or ("nan" in g[1].lower() and "nan" in w[1].lower()))))
+                 for g, w in zip(got, want)) and all(d is not None for _, d in got[len(want):])
+    chk.ob("C03.R3", ok, CORE, "%s.%s" % (cls, name), "positional-interface",
+           "the positional order and the defaults of the mutator's parameters are part of its behaviour (a flag passed by position must keep its meaning)", where=fi.where,
+           expected=", ".join("%s=%s" % (p, d) if d is not None else p for p, d in want), found=", ".join("%s=%s" % (p, d) if d is not None else p for p, d in got))
+
+
 def adjust_rules(chk, pid):
     """The credit primitive (C02.R4 / C03.R3 / C07.R3 / C01.R6)."""
     R = Roles(chk.prog)
+    public_signature(chk, "StrategyBase", "adjust")
     fi = chk.prog.func(CORE, "StrategyBase", "adjust")
     S = chk.summary(CORE, "StrategyBase", "adjust", host="StrategyBase")
     host = "StrategyBase.adjust"
@@ -1337,6 +1408,8 @@ ALLOCATE_NOINLINE = ("adjust", "allocate", "update", "_create_child_if_needed", 
 
 def strategy_allocate_rules(chk, pid):
     """C02.R2 / C03.R4 / C06.R7: capital pushed into a strategy is debited from its parent, credited to it, and spread by child weight."""
+    public_signature(chk, "StrategyBase", "allocate")
+    public_signature(chk, "StrategyBase", "transact")
     R = Roles(chk.prog)
     fi = chk.prog.func(CORE, "StrategyBase", "allocate")
     S = chk.summary(CORE, "StrategyBase", "allocate", host="StrategyBase", no_inline=ALLOCATE_NOINLINE)
@@ -1613,7 +1686,7 @@ RAW_READ_EXCEPTIONS = {
 
 FRESH_HOSTS = {
     "C01": lambda f: f.name == "update" and f.module == CORE,
-    "C08": lambda f: f.name == "update" and f.module == CORE,
+    "C08": lambda f: f.module == CORE,  # a raw read makes a later result depend on whether a (redundant) update happened in between
     "C06": lambda f: f.qual in ("StrategyBase.rebalance", "StrategyBase.close", "StrategyBase.flatten", "Rebalance.__call__", "RebalanceOverTime.__call__"),
     "C17": lambda f: f.qual in ("StrategyBase.rebalance", "Rebalance.__call__"),
     "C16": lambda f: f.qual in ("StrategyBase.flatten", "StrategyBase.update"),
@@ -1668,7 +1741,8 @@ def fresh_read_rules(chk, pid, hosts_for=None):
                 if f.cls == "StrategyBase" and f.name == "update":
                     # inside update the children were just updated; reads after the liquidation need the accessor (checked below)
                     continue
-                ok = (f.qual, role) in RAW_READ_EXCEPTIONS
+                owners = working_for(chk.prog, f)
+                ok = (f.qual, role) in RAW_READ_EXCEPTIONS or (bool(owners) and all((o.qual, role) in RAW_READ_EXCEPTIONS for o in owners))
                 chk.ob("C08.R3b", ok, f.module, f.qual, "raw-read:%s" % node.attr,
                        "derived state of another node must be read through its refreshing accessor (.%s), not the cached field" % role.lower(),
                        where="%s:%d" % (f.module, node.lineno), expected="accessor read", found="%s.%s" % (ast.unparse(base), node.attr),
@@ -1694,8 +1768,17 @@ def _update_after_liquidation(chk, pid):
     for w in ww:
         if w.seq < fl[0].seq:
             continue
-        reads = [e for e in S.events if e.kind == "propread" and e.obj == w.obj and e.name in ("value", "notional_value") and e.seq < w.seq and e.loops == w.loops
-                 and guard_subset(e.guard, w.guard)]
+        fi_atom = canon(fld(SELF, "_fixed_income"))
+        ok = True
+        for mode in (True, False):
+            # one scenario per kind of strategy (the read may sit in an arm of a conditional expression)
+            gm = sym.sat(tuple(G(w)) + ((fi_atom, mode),))
+            if sym.inconsistent(gm):
+                continue
+            reads = [e for e in S.events if e.kind == "propread" and e.obj == w.obj and e.name in ("value", "notional_value") and e.seq < w.seq and e.loops == w.loops
+                     and all(sym.lit_holds(gm, a, p_) for a, p_ in lits(plain(e.guard)))]
+            ok = ok and bool(reads)
+        reads = ok
         chk.ob("C08.R3b", bool(reads), CORE, "StrategyBase.update", "weights-after-liquidation-read-through-accessor",
                "after the liquidation inside update (which marks the tree stale) the children's values are re-read through the refreshing accessor", where=w.where,
                expected="c.value / c.notional_value", found="cached field read")
@@ -1703,6 +1786,54 @@ def _update_after_liquidation(chk, pid):
 
 # ------------------------------------------------------------------------------------------------
 # Recursion completeness (C19.R2 / C07.R5)
+
+
+def _written_on_all_members(S, field, arg):
+    """for node in self.members: node.<field> = arg   - members is the node and everything below it (its completeness is C19.R2's `members` rule)"""
+    for w in S.events:
+        if (w.kind == "write" and w.field == field and w.obj[0] == "elem" and canon(w.obj[1]) == canon(("prop", SELF, "members")) and canon(w.value) == canon(arg)
+                and not plain(w.guard)):
+            return True
+    return False
+
+
+def pushes_down(chk, F, pname, field, only_strats=False):
+    """Does method F store its parameter `pname` in `field` of its node and hand the same value to the same method of ALL its children?"""
+    S = chk.summary(F.module, F.cls, F.name, host=F.cls, no_inline=(F.name,))
+    arg = canon(("param", pname))
+    if not only_strats and _written_on_all_members(S, field, arg):
+        return True
+    w = S.writes(field, SELF)
+    if not (w and canon(w[-1].value) == arg and not plain(w[-1].guard)):
+        return False
+    for e in S.calls(F.name):
+        kind = child_receiver(e.recv, SELF)
+        if kind is None:
+            continue
+        over_children = True
+        b = bound_args(e, chk.prog).get(pname)
+        filt = [l for l in plain(e.guard)]
+        if only_strats:
+            filt_ok = (all(p and a[0] == "call" and a[1] == "isinstance" and a[2][1] == ("class", "StrategyBase") for a, p in filt) and len(filt) == 1) if kind == "all" else not filt
+        else:
+            filt_ok = not filt and kind == "all"
+        if over_children and b is not None and canon(b) == arg and filt_ok:
+            return True
+    return False
+
+
+def pushed_into_subtree(chk, S, c, value, field, within):
+    """Within summary S: is `value` handed to a method of node c that pushes it into `field` of c and of every node below it (on the paths of event `within`)?"""
+    for e in S.events:
+        if e.kind != "call" or e.recv is None or canon(e.recv) != canon(c) or not e.callee or not guard_subset(e.guard, within.guard):
+            continue
+        cands = [F for F in e.callee if hasattr(F, "qual") and F.cls is not None]
+        if not cands:
+            continue
+        for pname, a in bound_args(e, chk.prog).items():
+            if canon(a) == canon(value) and all(pname in F.params and pushes_down(chk, F, pname, field) for F in cands):
+                return e
+    return None
 
 
 def recursion_rules(chk, pid, which):
@@ -1713,21 +1844,27 @@ def recursion_rules(chk, pid, which):
         host = "%s.%s" % (cls, name)
         chk.site()
         arg = ("param", fi.params[1])
+        if field is not None and not only_strats and _written_on_all_members(S, field, arg):
+            from . import tree_rules
+
+            tree_rules.full_name_members(chk, pid)
+            chk.ob("C19.R2", True, CORE, host, "assign-on-all-members:%s" % field, "%s stores the pushed setting on the node and on every node below it" % host, where=fi.where)
+            continue
         if field is not None:
             w = S.writes(field, SELF)
             ok = bool(w) and canon(w[-1].value) == canon(arg) and not plain(w[-1].guard)
             chk.ob("C19.R2", ok, CORE, host, "assign:%s" % field, "%s stores the pushed setting on the node" % host, where=fi.where, found=short(w[-1].value) if w else "no assignment")
-        rec = [e for e in S.calls(name) if e.recv is not None and e.recv[0] == "elem"]
+        rec = [e for e in S.calls(name) if child_receiver(e.recv, SELF) is not None]
         ok = False
         for e in rec:
-            it = e.recv[1]
-            over_children = (it[0] == "fld" and it[2] == "_childrenv") or (it[0] == "mcall" and it[2] == "values") or (it[0] == "call" and it[1] == "list")
+            kind = child_receiver(e.recv, SELF)
+            over_children = True
             same_arg = e.args and canon(e.args[0]) == canon(arg)
             filt = [l for l in plain(e.guard)]
             if only_strats:
-                filt_ok = all(p and a[0] == "call" and a[1] == "isinstance" and a[2][1] == ("class", "StrategyBase") for a, p in filt) and len(filt) == 1
+                filt_ok = (all(p and a[0] == "call" and a[1] == "isinstance" and a[2][1] == ("class", "StrategyBase") for a, p in filt) and len(filt) == 1) if kind == "all" else not filt
             else:
-                filt_ok = not filt
+                filt_ok = not filt and kind == "all"
             ok = ok or (over_children and same_arg and filt_ok)
         chk.ob("C19.R2", ok, CORE, host, "recurse-all-children", "%s reaches every %s below the node with the same argument" % (host, "sub-strategy" if only_strats else "descendant"),
                where=fi.where, expected="for c in children: c.%s(%s)" % (name, fi.params[1]), found="%d recursive call sites" % len(rec),
